@@ -706,10 +706,19 @@ impl GRLParser {
         let mut parts = Vec::new();
         let mut current_part = String::new();
         let mut paren_count = 0;
+        // string literals are opaque: no parenthesis or operator inside one counts
+        let mut in_string = false;
         let mut chars = clause.chars().peekable();
 
         while let Some(ch) = chars.next() {
             match ch {
+                '"' => {
+                    in_string = !in_string;
+                    current_part.push(ch);
+                }
+                _ if in_string => {
+                    current_part.push(ch);
+                }
                 '(' => {
                     paren_count += 1;
                     current_part.push(ch);
